@@ -141,31 +141,39 @@ pub(crate) fn recursive_anchor_in_progress(id: usize) -> bool {
 }
 
 pub(crate) fn store_rc<T: Any>(id: usize, rc: Rc<T>) {
-    STATE.with(|state| {
+    // A replaced entry is dropped after the borrow has ended (see `with_document_scope`).
+    let replaced = STATE.with(|state| {
         let mut s = state.borrow_mut();
-        s.store.rc.insert(id, rc);
+        s.store.rc.insert(id, rc)
     });
+    drop(replaced);
 }
 
 pub(crate) fn store_arc<T: Any + Send + Sync>(id: usize, arc: Arc<T>) {
-    STATE.with(|state| {
+    // A replaced entry is dropped after the borrow has ended (see `with_document_scope`).
+    let replaced = STATE.with(|state| {
         let mut s = state.borrow_mut();
-        s.store.arc.insert(id, arc);
+        s.store.arc.insert(id, arc)
     });
+    drop(replaced);
 }
 
 pub(crate) fn store_rc_recursive<T: Any>(id: usize, rc: Rc<T>) {
-    STATE.with(|state| {
+    // A replaced entry is dropped after the borrow has ended (see `with_document_scope`).
+    let replaced = STATE.with(|state| {
         let mut s = state.borrow_mut();
-        s.store.rc_recursive.insert(id, rc);
+        s.store.rc_recursive.insert(id, rc)
     });
+    drop(replaced);
 }
 
 pub(crate) fn store_arc_recursive<T: Any + Send + Sync>(id: usize, arc: Arc<T>) {
-    STATE.with(|state| {
+    // A replaced entry is dropped after the borrow has ended (see `with_document_scope`).
+    let replaced = STATE.with(|state| {
         let mut s = state.borrow_mut();
-        s.store.arc_recursive.insert(id, arc);
+        s.store.arc_recursive.insert(id, arc)
     });
+    drop(replaced);
 }
 
 pub(crate) fn get_rc<T: Any>(id: usize) -> Result<Option<Rc<T>>, String> {
@@ -245,7 +253,12 @@ pub(crate) fn with_document_scope<R>(f: impl FnOnce() -> R) -> R {
     impl Drop for RestoreGuard {
         fn drop(&mut self) {
             if let Some(previous) = self.0.take() {
-                STATE.with(|state| *state.borrow_mut() = previous);
+                // The finished document's state owns the last reference to anchored values
+                // of a failed parse. Their destructors are user code that may call back
+                // into this crate, so they must not run while the state is borrowed.
+                let finished =
+                    STATE.with(|state| std::mem::replace(&mut *state.borrow_mut(), previous));
+                drop(finished);
             }
         }
     }
